@@ -24,7 +24,7 @@ VALID_INVS = ("InvSlots", "InvDocumented", "InvProgress", "InvValidAccepted")
 
 def run(ctx):
     ctx.rule = (
-        "TLC: every model with 1..MaxFields fields from a 27-entry catalogue x root/child namespaces x every instance over the "
+        "TLC: every model with 1..MaxFields fields from a 29-entry catalogue x root/child namespaces x every instance over the "
         "value sets; node-stack invariants in every state. Real code: each case serialised with 7 serializer configurations x "
         "prefix maps, parsed back with both handlers, compared with the original; parser traces compared with the "
         "specification step by step. Compound fields (spec/Compound.tla: choices of pairwise different types x namespaces x "
